@@ -107,6 +107,21 @@ def classify(case, res):
     if res is None:
         return {"verdict": "skip", "detail": "no expectation from the specification", "drift": None}
     exp = res["status"]
+    # invariants of the state observed through the hooks (built from the recorded events alone)
+    ob = res.get("obs")
+    if ob and not o.get("truncated"):
+        bad = []
+        if not ob["dense"]:
+            bad.append("graph nodes are not numbered densely in creation order")
+        if not ob["newok"]:
+            bad.append("an edge statement reported new/existing inconsistently with the edges created so far")
+        if ob["dangling"]:
+            bad.append("an edge or attribute refers to a node or edge that does not exist")
+        if ob["conflict"] and st == "ok":
+            bad.append("an attribute was assigned two different values and execution succeeded")
+        if bad:
+            return {"verdict": "violation", "detail": "observed-state invariant: " + "; ".join(bad), "drift": None,
+                    "sig": {"observed": st, "obs": ";".join(bad)}}
     if exp == "unsupported":
         return {"verdict": "unsupported", "detail": "", "drift": None}
     drift = None
@@ -168,3 +183,120 @@ def nontrivial(case):
     """a case is non-trivial when at least one stanza matched and at least one statement ran"""
     ev = case.get("events") or []
     return any(e.get("e") == "stmt" for e in ev)
+
+
+def tolerate_hash_order(case, res, cl):
+    """lazy mode forces the scoped store by iterating a hash map: the order of names is unspecified.
+    A mechanism-level disagreement after the `sforceall` event is therefore not drift."""
+    if not cl.get("drift") or not res or not res.get("drift"):
+        return cl
+    ev = case.get("events") or []
+    idx = next((i for i, e in enumerate(ev) if e.get("e") == "sforceall"), None)
+    if idx is not None and res["drift"] > idx + 1:
+        cl = dict(cl)
+        cl["drift"] = None
+        cl["hash_order"] = True
+    return cl
+
+
+class ExecRun:
+    """accumulates batches of executed+validated cases for one property check"""
+
+    def __init__(self, prop, tier):
+        self.prop = prop
+        self.tier = tier
+        self.V = C.Verdicts(prop, tier)
+        self.cases = []
+        self.results = {}
+        self.states = 0
+        self.trans = 0
+        self.classified = []
+        self.counts = {"agree_ok": 0, "agree_err": 0, "agree_cancelled": 0, "skip": 0, "unsupported": 0, "load_err": 0, "violation": 0}
+
+    def add_batch(self, name, raw, layout_seed=None):
+        cases, results, stats = execute_and_validate(name, raw, layout_seed)
+        self.cases += cases
+        self.results.update(results)
+        self.states += stats["distinct"]
+        self.trans += stats["states"]
+        return cases, results
+
+    def add_cases(self, name, items, layout_seed=None):
+        d = C.workdir(name)
+        raw = os.path.join(d, "raw.ndjson")
+        C.write_ndjson(raw, items)
+        return self.add_batch(name, raw, layout_seed)
+
+    def classify_all(self, report=True, panic_only=False):
+        """compares every case with its own machine; reports violations (optionally only crashes)"""
+        out = []
+        for case in self.cases:
+            res = self.results.get(case.get("id"))
+            cl = tolerate_hash_order(case, res, classify(case, res))
+            v = cl["verdict"]
+            if v == "violation":
+                self.counts["violation"] += 1
+                crash = case.get("outcome", {}).get("status") in ("panic", "abort", "load_panic")
+                if report and (crash or not panic_only):
+                    self.V.violation(case["id"], replay_payload(self.prop, case, res, cl), cl.get("sig"))
+            elif v == "unsupported":
+                self.V.unsupported += 1
+                self.counts["unsupported"] += 1
+            elif v == "skip":
+                self.counts["skip"] += 1
+                if cl.get("load_err"):
+                    self.counts["load_err"] += 1
+            else:
+                key = "agree_" + cl["detail"]
+                self.counts[key] = self.counts.get(key, 0) + 1
+            if cl.get("drift"):
+                self.V.note_drift(case["id"], cl["drift"])
+            out.append((case, res, cl))
+        self.classified = out
+        return out
+
+    def coverage(self, rule, extra=None):
+        validated = sum(1 for c in self.cases if self.results.get(c.get("id")) is not None)
+        distinct = set()
+        samples = []
+        for c in self.cases:
+            if self.results.get(c.get("id")) is not None and nontrivial(c):
+                distinct.add((c.get("text"), c.get("src"), c.get("mode"), json.dumps(c.get("globals"), sort_keys=True),
+                              c.get("cancel_at"), json.dumps(c.get("dbg"), sort_keys=True)))
+                if len(samples) < 3:
+                    samples.append(sample_of(c))
+        cov = {
+            "states": max(self.states, 0), "transitions": max(self.trans, 0),
+            "traces_validated_against_impl": validated,
+            "samples": samples or [sample_of(c) for c in self.cases[:1]] or [{"note": "no case"}],
+            "evaluations": len(self.cases), "distinct_nontrivial": len(distinct),
+            "rule": rule, "outcomes": self.counts, "exhaustive": False,
+        }
+        if extra:
+            cov.update(extra)
+        return cov
+
+
+TRUSTED = [
+    "tree-sitter query matching, the python grammar and the regex crate are trusted (their results are inputs of the specification)",
+    "graphs are compared up to renumbering of graph nodes",
+]
+
+
+def replay_generic(prop, path, judge=None):
+    """re-runs the recorded case(s) of a replay file against the current /repo tree"""
+    with open(path, encoding="utf-8") as f:
+        rp = json.load(f)
+    items = rp.get("cases") or [rp["case"]]
+    run = ExecRun(prop, "quick")
+    run.add_cases(prop.lower() + "_replay", items)
+    rc = 0
+    for case, res, cl in run.classify_all(report=False):
+        print(case.get("id"), cl["verdict"], cl["detail"])
+        if cl["verdict"] == "violation":
+            rc = 1
+    if judge:
+        rc = max(rc, judge(run))
+    if rc:
+        print("VIOLATION property=%s replay=%s" % (prop, path))
+    return rc
